@@ -105,7 +105,18 @@ impl<'a> IndexBuilder<'a> {
             .into());
         }
 
-        let trie = yada::builder::DoubleArrayBuilder::build(&trie_entries);
+        // the trie builder recurses once per key byte: build on a thread whose stack fits the longest key
+        let max_key_len = trie_entries.iter().map(|(k, _)| k.len()).max().unwrap_or(0);
+        let trie = std::thread::scope(|scope| {
+            std::thread::Builder::new()
+                .stack_size((1 << 20) + max_key_len * 4096)
+                .spawn_scoped(scope, || {
+                    yada::builder::DoubleArrayBuilder::build(&trie_entries)
+                })
+                .ok()
+                .and_then(|handle| handle.join().ok())
+                .flatten()
+        });
         match trie {
             Some(t) => Ok(t),
             None => Err(DicBuildError {
